@@ -370,7 +370,7 @@ func c11() []*Ob {
 					for _, b := range fn.Blocks {
 						for _, in := range b.Instrs {
 							if mu, ok := in.(*ssa.MapUpdate); ok {
-								if k, isK := ConstInt(mu.Key); isK && strings.Contains(mu.Map.Type().String(), "TokenizerType") {
+								if k, isK := ConstInt(mu.Key); isK && strings.Contains(TypeStr(mu.Map.Type()), "TokenizerType") {
 									reg[k] = true
 								}
 							}
@@ -392,7 +392,7 @@ func c11() []*Ob {
 					if fn == nil {
 						continue
 					}
-					cov := c.P.SwitchCoverageLifted(fn, func(v ssa.Value) bool { return strings.HasSuffix(v.Type().String(), "seq.TokenizerType") })
+					cov := c.P.SwitchCoverageLifted(fn, func(v ssa.Value) bool { return strings.HasSuffix(TypeStr(v.Type()), "seq.TokenizerType") })
 					var missing []string
 					for k := range valueTypes {
 						if !cov[k] {
